@@ -514,7 +514,11 @@ class Facts:
             if f in seen or f in stop:
                 continue
             seen.add(f)
-            todo.extend(cg.get(f, ()))
+            if f in cg:
+                todo.extend(cg[f])
+            else:
+                # an expanded view (rules/inline.py) is not part of the crate's function list
+                todo.extend({t for _, _, t, _ in self.call_sites(f) if t is not None} | self.fn_refs(f))
         return seen
 
     def public_fns(self):
